@@ -16,6 +16,13 @@
 (*           gumbel/disable = the options as the USER set them (intended), *)
 (*           sampler = which sampling routine the object really runs       *)
 (*                                                                         *)
+(* The control state is PER OBJECT: every parameter object has its own     *)
+(* requires_grad, every layer its own discrete_cost switch, every          *)
+(* quantiser / combiner its own options; model-level calls are POINTWISE   *)
+(* updates (the named thing is written everywhere, everything else keeps   *)
+(* the value it had in that layer), per-layer calls ("lflag", "lupd",      *)
+(* "lsel") touch one layer / quantiser only.                               *)
+(*                                                                         *)
 (* Impl = "fixed"  : intended behaviour (= the code after the fix: commits *)
 (*                   for F07/F08): frozen masks ignore every write,        *)
 (*                   unspecified sampling options are kept.                *)
@@ -23,6 +30,10 @@
 (*                   requires_grad on every reported NAS parameter         *)
 (*                   directly (F07); update_softmax_options re-chooses the *)
 (*                   sampler from the ARGUMENTS of the current call (F08). *)
+(* Impl = "bcast1" : sanity variant (expected to fail): a model-level      *)
+(*                   option update resolves the unspecified options ONCE   *)
+(*                   from the first block and writes all of them to every  *)
+(*                   block.                                                *)
 (***************************************************************************)
 EXTENDS Naturals, Sequences, FiniteSets
 
@@ -37,7 +48,8 @@ PitNetCls    == {"w", "bn", "bnfold"}                \* weights/biases, affine o
                                                      \* BatchNorm folded into the weights, no longer read)
 PitFreeCls   == {"alpha", "alphaS", "beta", "gamma"} \* free masks; alphaS = ONE mask object owned by several layers
 PitFrozenCls == {"alphaF", "betaF", "gammaF"}        \* masks frozen by construction
-PitCls       == PitNetCls \cup PitFreeCls \cup PitFrozenCls
+PitAuxCls    == {"dc"}                               \* pseudo-object: the discrete_cost switch of ONE layer
+PitCls       == PitNetCls \cup PitFreeCls \cup PitFrozenCls \cup PitAuxCls
 \* MPS
 MpsNetCls    == {"w"}
 MpsAlphaCls  == {"qalpha", "qalphaS"}                \* selection parameters (qalphaS: quantiser shared by several layers)
@@ -62,27 +74,38 @@ FlagOf(c) == IF c \in {"alpha", "alphaS", "alphaF"} THEN "features"
              ELSE IF c \in {"beta", "betaF"} THEN "rf"
              ELSE IF c \in {"gamma", "gammaF"} THEN "dilation"
              ELSE "-"
+DimOf(c) == IF c = "dc" THEN "dc" ELSE FlagOf(c)
 
 TrainGroups == {"nas", "net", "both"}          \* train_nas_only / train_net_only / train_net_and_nas
 PitFlags    == {"features", "rf", "dilation", "dc"}
 
 (***************************************************************************)
-(* requires_grad of ONE parameter after a call.                            *)
+(* requires_grad of ONE parameter object (value of one discrete_cost       *)
+(* switch) after a call.                                                   *)
 (*   c = class, grp = group it is reported in ("nas"/"net"/"none" = not a  *)
-(*   parameter at all, e.g. a frozen mask kept in a buffer), rg = value    *)
-(*   before the call, a = the call.                                        *)
+(*   parameter at all, e.g. a frozen mask kept in a buffer), own = set of  *)
+(*   layers owning the object, qi = quantiser/combiner owning it (0: none),*)
+(*   rg = value before the call, a = the call.                             *)
 (***************************************************************************)
 Want(g, grp) == (g = "both" /\ grp \in {"nas", "net"}) \/ g = grp
 
-NextRg(impl, c, grp, rg, a) ==
-    IF a.a = "train" THEN
+NextRg(impl, c, grp, own, qi, rg, a) ==
+    IF c = "dc" THEN
+         IF a.a = "flag" /\ a.f = "dc" THEN a.v                        \* PIT.discrete_cost := v reaches every layer
+         ELSE IF a.a = "lflag" /\ a.f = "dc" /\ a.l \in own THEN a.v   \* layer.discrete_cost := v
+         ELSE rg
+    ELSE IF a.a = "train" THEN
          IF Frozen(c) THEN (IF impl = "pinned" /\ grp # "none" THEN Want(a.g, grp) ELSE rg)
          ELSE Want(a.g, grp)
-    ELSE IF a.a = "flag" THEN
+    ELSE IF a.a = "flag" THEN                       \* PIT.train_<f> := v
          IF a.f # "dc" /\ FlagOf(c) = a.f /\ ~Frozen(c) THEN a.v ELSE rg
+    ELSE IF a.a = "lflag" THEN                      \* layer.train_<f> := v on ONE layer
+         IF a.f # "dc" /\ FlagOf(c) = a.f /\ ~Frozen(c) /\ a.l \in own THEN a.v ELSE rg
     ELSE IF a.a = "sel" THEN                        \* SuperNet.train_selection := v
          IF c = "snalpha" THEN a.v ELSE rg
-    ELSE rg                                          \* upd, fwdbwd
+    ELSE IF a.a = "lsel" THEN                       \* combiner.train_selection := v on ONE block
+         IF c = "snalpha" /\ qi = a.b THEN a.v ELSE rg
+    ELSE rg                                          \* upd, lupd, fwdbwd
 
 NextFlags(flags, a) == IF a.a = "flag" THEN [flags EXCEPT ![a.f] = a.v] ELSE flags
 
@@ -109,13 +132,29 @@ NextOpt(impl, kind, o, a) ==
              g == IF kind = "mps" /\ a.gumbel # NoB THEN B(a.gumbel) ELSE o.gumbel
              d == IF kind = "mps" /\ a.disable # NoB THEN B(a.disable) ELSE o.disable
              s == IF kind # "mps" THEN o.sampler        \* a combiner never re-chooses its sampler
-                  ELSE IF impl = "fixed" THEN Sampler(g, d)
-                  ELSE PinnedSampler(a)
+                  ELSE IF impl = "pinned" THEN PinnedSampler(a)
+                  ELSE Sampler(g, d)
          IN  [temp |-> t, hard |-> h, gumbel |-> g, disable |-> d, sampler |-> s]
 
+\* the option arguments that reach block k with call a ("lupd" = the same update addressed to ONE block:
+\* quantiser.update_softmax_options(..) / combiner.softmax_temperature := t / combiner.hard_softmax := h)
+NoUpd == [a |-> "upd", temp |-> NoT, hard |-> NoB, gumbel |-> NoB, disable |-> NoB]
+AsUpd(a) == [a |-> "upd", temp |-> a.temp, hard |-> a.hard, gumbel |-> a.gumbel, disable |-> a.disable]
+ArgFor(a, k) == IF a.a = "upd" THEN a
+                ELSE IF a.a = "lupd" /\ a.b = k THEN AsUpd(a)
+                ELSE NoUpd
+
+\* options of block k after call a; opts = sequence block -> option record.  POINTWISE.
+NextOptOf(impl, kind, opts, k, a) ==
+    IF impl = "bcast1" /\ a.a = "upd"
+    THEN LET n == NextOpt("fixed", kind, opts[k], a)
+         IN  [n EXCEPT !.temp = IF a.temp # NoT THEN a.temp ELSE opts[1].temp,
+                       !.hard = IF a.hard # NoB THEN B(a.hard) ELSE opts[1].hard]
+    ELSE IF a.a = "upd" \/ (a.a = "lupd" /\ a.b = k) THEN NextOpt(impl, kind, opts[k], ArgFor(a, k))
+    ELSE opts[k]
+
 \* "changing one sampling option leaves the unspecified ones as they were" on the
-\* OBSERVABLE options of one quantiser (before: o, after: n), given the intended
-\* gumbel/disable after the call (g, d)
+\* OBSERVABLE options of one quantiser (before: o, after: n) for the arguments a that reached it
 SpecifiedSet(kind, o, n, a) ==
     /\ a.temp # NoT => n.temp = a.temp
     /\ a.hard # NoB => n.hard = B(a.hard)
@@ -136,6 +175,7 @@ UnspecifiedKept(kind, o, n, a) ==
 (***************************************************************************)
 Reads(c, sampler, hard) ==
     /\ c # "alphaF"
+    /\ c # "dc"
     /\ c # "qdummy"
     /\ c # "bnfold"
     /\ (c \in MpsAlphaCls => sampler # "none")
